@@ -163,6 +163,25 @@ def crashInClose (st : PState) (p : CrashPoint) : Option PState :=
     | .renamed => if st.mem.isEmpty then none else some { st with idx := some st.mem }   -- new idx, full log
     | .idxRemoved => if st.mem.isEmpty then some { st with idx := none } else none
 
+/-- the files as a crash at point `p` of a `WriteToFile` during `Engine.Open`
+    leaves them (the first time the point is reached): the `WriteToFile` of `load`
+    runs iff the log holds a record; otherwise, when the loaded set is empty,
+    `LoadMetadataIndex` runs one (the log file is already removed then).
+    `none` = that point is not reached by this open -/
+def crashInOpen (st : PState) (p : CrashPoint) : Option PState :=
+  let recs := st.log.getD []
+  let m := replay (st.idx.getD []) recs.flatten
+  if recs.isEmpty then
+    -- no changes: only LoadMetadataIndex may snapshot, and only an empty set
+    match p with
+    | .idxRemoved => if m.isEmpty then some { st with idx := none, log := none } else none
+    | _ => none
+  else
+    match p with
+    | .tmpWritten => if m.isEmpty then none else some st
+    | .renamed => if m.isEmpty then none else some { st with idx := some m }
+    | .idxRemoved => if m.isEmpty then some { st with idx := none } else none
+
 /-- the measurements whose series `validateSeriesAndFields` creates in the index -/
 def touchSeries (series : List String) (batch : List Point) : List String :=
   let touched := (batch.filter (fun p => !hasTimeTag p)).map (·.meas)
@@ -233,6 +252,8 @@ inductive Op10
   | writeTorn (j : Int) (batch : List Point)
   | dropTorn (j : Int) (m : String)
   | crashInClose (p : CrashPoint)
+  /-- process kill, then a crash inside the snapshot rewrite of the recovery itself -/
+  | crashInOpen (p : CrashPoint)
   /-- two concurrent writers; the model runs them in this order (every step of
       `CreateFieldIfNotExists` is one atomic `LoadOrStore`, the real schedule may be the other one) -/
   | race (a b : List Point)
@@ -272,6 +293,10 @@ def step10 (st : PState) : Op10 → PState × Step10
     match crashInClose st p with
     | some st' => reopened (.restart (.inSnapshot p.name)) st' (fullLog st')
     | none => reopened (.restart .clean) (closeFields st) (fullLog (closeFields st))
+  | .crashInOpen p =>
+    match crashInOpen st p with
+    | some st' => reopened (.restart (.inSnapshot ("open:" ++ p.name))) st' (fullLog st')
+    | none => reopened (.restart .kill) st (fullLog st)
   | .race a b =>
     let r1 := pWrite st a
     let r2 := pWrite r1.1 b
